@@ -464,6 +464,7 @@ async fn publish_common<FRead, FutRead, FAll, FutAll>(
     size: u32,
     read: FRead,
     read_all: FAll,
+    detached: Option<ntex_mqtt::Payload>,
 ) -> Outcome
 where
     FRead: Fn() -> FutRead,
@@ -512,6 +513,30 @@ where
             }
         }
         ReadMode::Abandon => {}
+        ReadMode::Detached => {
+            if let Some(pl) = detached {
+                let app2 = app.clone();
+                let _ = ntex_util::spawn(async move {
+                    let mut got: Vec<u8> = Vec::new();
+                    loop {
+                        match pl.read().await {
+                            Ok(Some(b)) => {
+                                app2.log(Ev::PubRead { call, res: Ok(b.len()) });
+                                got.extend_from_slice(&b);
+                            }
+                            Ok(None) => {
+                                app2.log(Ev::PubPayload { call, bytes: got.clone() });
+                                break;
+                            }
+                            Err(e) => {
+                                app2.log(Ev::PubRead { call, res: Err(perr(e)) });
+                                break;
+                            }
+                        }
+                    }
+                });
+            }
+        }
     }
     let outcome = if plan.gated {
         let g = app.gate(GateKind::Pub, call);
@@ -544,7 +569,8 @@ fn perr(e: ntex_mqtt::error::PayloadError) -> String {
 
 // ------------------------------------------------------------------------------- v3 handlers
 
-async fn v3_publish(app: Rc<App>, p: v3::Publish, route: String) -> Result<(), TestErr> {
+async fn v3_publish(app: Rc<App>, mut p: v3::Publish, route: String) -> Result<(), TestErr> {
+    let detached = (app.peek_pub_read() == ReadMode::Detached).then(|| p.take_payload());
     let pk = p.packet().clone();
     let size = p.packet_size();
     let o = publish_common(
@@ -559,6 +585,7 @@ async fn v3_publish(app: Rc<App>, p: v3::Publish, route: String) -> Result<(), T
         size,
         || async { p.read().await.map_err(perr) },
         || async { p.read_all().await.map_err(perr) },
+        detached,
     )
     .await;
     match o {
@@ -600,7 +627,8 @@ fn packet_id_of_v3_sub(_s: &v3::control::Subscribe) -> u16 {
 
 // ------------------------------------------------------------------------------- v5 handlers
 
-async fn v5_publish(app: Rc<App>, p: v5::Publish, route: String) -> Result<v5::PublishAck, TestErr> {
+async fn v5_publish(app: Rc<App>, mut p: v5::Publish, route: String) -> Result<v5::PublishAck, TestErr> {
+    let detached = (app.peek_pub_read() == ReadMode::Detached).then(|| p.take_payload());
     // resources with a dynamic segment: record what the router's match says about this message
     let route = if route.contains('{') { format!("{route}[id={}]", p.topic().get("id").unwrap_or("-")) } else { route };
     let pk = p.packet().clone();
@@ -618,6 +646,7 @@ async fn v5_publish(app: Rc<App>, p: v5::Publish, route: String) -> Result<v5::P
         size,
         || async { p.read().await.map_err(perr) },
         || async { p.read_all().await.map_err(perr) },
+        detached,
     )
     .await;
     match o {
@@ -1101,6 +1130,8 @@ pub async fn start_client_opts(cfg: &ConnCfg, app: Rc<App>, send_connack: bool) 
 async fn v3_client_protocol(app: Rc<App>, msg: v3::client::ProtocolMessage) -> Result<v3::ProtocolMessageAck, TestErr> {
     match msg {
         v3::client::ProtocolMessage::Publish(p) => {
+            // the protocol-service form of a publish cannot give its payload away
+            let detached = None;
             let pk = p.packet().clone();
             let size = p.packet_size();
             let o = publish_common(
@@ -1115,6 +1146,7 @@ async fn v3_client_protocol(app: Rc<App>, msg: v3::client::ProtocolMessage) -> R
                 size,
                 || async { p.read().await.map_err(perr) },
                 || async { p.read_all().await.map_err(perr) },
+                detached,
             )
             .await;
             match o {
@@ -1136,6 +1168,7 @@ async fn v3_client_protocol(app: Rc<App>, msg: v3::client::ProtocolMessage) -> R
 async fn v5_client_protocol(app: Rc<App>, msg: v5::client::ProtocolMessage) -> Result<v5::ProtocolMessageAck, TestErr> {
     match msg {
         v5::client::ProtocolMessage::Publish(p) => {
+            let detached = None;
             let pk = p.packet().clone();
             let size = p.packet_size();
             let props = crate::map::v5_publish_props(&pk.properties);
@@ -1151,6 +1184,7 @@ async fn v5_client_protocol(app: Rc<App>, msg: v5::client::ProtocolMessage) -> R
                 size,
                 || async { p.read().await.map_err(perr) },
                 || async { p.read_all().await.map_err(perr) },
+                detached,
             )
             .await;
             match o {
